@@ -1,8 +1,11 @@
 package checks
 
 import (
+	"bytes"
+	"crypto/elliptic"
 	"crypto/x509"
 	"crypto/x509/pkix"
+	"encoding/asn1"
 	"errors"
 	"fmt"
 	"math/big"
@@ -17,7 +20,7 @@ import (
 
 // C19 — trust only by exact certificate match, leaf-most first.
 //
-// Alphabet: a pool of seven look-alike certificates. Every chain of length
+// Alphabet: a pool of eight look-alike certificates. Every chain of length
 // 1..L and every trust list of length 0..L over the pool (with repetition)
 // is enumerated; the reference is a byte comparison of DER.
 
@@ -50,9 +53,18 @@ func c19Init(mc.Tier) (int, error) {
 	L3 := pki.Issue(t3, pki.K("p256-e"), inter, nil)  // same subject + key + serial, other validity
 	L4 := pki.Issue(lt, pki.K("p256-f"), inter, nil)  // same subject + serial, other key
 	L5 := pki.Issue(lt, pki.K("p256-e"), interB, nil) // cross-signed: same subject, key, serial; other issuer key
-	c19.names = []string{"L", "L-otherSerial", "L-otherValidity", "L-otherKey", "L-crossSigned", "I", "R"}
+	c19.names = []string{"L", "L-otherSerial", "L-otherValidity", "L-otherKey", "L-crossSigned", "I", "R", "L-sameContentOtherSignatureValue"}
 	for _, c := range []*pki.Cert{L, L2, L3, L4, L5, inter, rootA} {
 		c19.der = append(c19.der, c.DER)
+	}
+	// the same to-be-signed content under another, equally valid signature value of the same issuer: ECDSA (r, s) rewritten as (r, n-s)
+	L6, err := c19OtherSignatureValue(L.DER)
+	if err != nil {
+		return 0, err
+	}
+	c19.der = append(c19.der, L6)
+	if x6, err := x509.ParseCertificate(L6); err != nil || !bytes.Equal(x6.RawTBSCertificate, L.X.RawTBSCertificate) || bytes.Equal(x6.Signature, L.X.Signature) || x6.CheckSignatureFrom(inter.X) != nil {
+		return 0, fmt.Errorf("pool entry with another signature value is not what it should be: %v", err)
 	}
 	// forge self-check: all DER distinct; look-alikes share what they claim to share
 	n := 0
@@ -71,6 +83,29 @@ func c19Init(mc.Tier) (int, error) {
 		return n, errors.New("look-alike pool does not have the intended shared fields")
 	}
 	return n + 6, nil
+}
+
+// c19OtherSignatureValue re-assembles a certificate signed with ECDSA P-256 with the signature (r, n-s) instead of (r, s).
+func c19OtherSignatureValue(der []byte) ([]byte, error) {
+	var outer struct {
+		TBS asn1.RawValue
+		Alg asn1.RawValue
+		Sig asn1.BitString
+	}
+	if rest, err := asn1.Unmarshal(der, &outer); err != nil || len(rest) != 0 {
+		return nil, fmt.Errorf("certificate outer structure: %v", err)
+	}
+	var rs struct{ R, S *big.Int }
+	if _, err := asn1.Unmarshal(outer.Sig.Bytes, &rs); err != nil {
+		return nil, err
+	}
+	rs.S = new(big.Int).Sub(elliptic.P256().Params().N, rs.S)
+	sig, err := asn1.Marshal(rs)
+	if err != nil {
+		return nil, err
+	}
+	outer.Sig = asn1.BitString{Bytes: sig, BitLength: 8 * len(sig)}
+	return asn1.Marshal(outer)
 }
 
 func c19Parse(i int) *x509.Certificate {
@@ -288,10 +323,10 @@ func init() {
 		ID:        "C19",
 		Title:     "Trust is established only by an exact certificate match, leaf-most first",
 		DesignRef: "DESIGN.md §4 C19",
-		Rule: "Every chain of length 1..L and every trust list of length 0..L (quick L=3, thorough L=4) over a pool of seven look-alike certificates " +
+		Rule: "Every chain of length 1..L and every trust list of length 0..L (quick L=3, thorough L=4) over a pool of eight look-alike certificates " +
 			"(same subject+key re-issued with another serial / validity, same subject other key, cross-signed, intermediate, root), plus nil signer info, empty chain, " +
 			"and the 4x3 table scheme x signing time for AuthenticSigningTime; each pair is one call of the real VerifyAuthenticity compared with a DER-equality reference.",
-		Assumptions: []string{"look-alikes beyond the seven pool members are not enumerated", "certificate equality is decided on DER by the reference; the pool self-check asserts all seven DER encodings differ"},
+		Assumptions: []string{"look-alikes beyond the eight pool members are not enumerated", "certificate equality is decided on DER by the reference; the pool self-check asserts all eight DER encodings differ"},
 		Init:        c19Init,
 		Scenarios:   c19Scenarios,
 		Alphabet: func(t mc.Tier) map[string]int {
@@ -299,7 +334,7 @@ func init() {
 			if t == mc.Thorough {
 				l = 4
 			}
-			return map[string]int{"pool": 7, "max_chain_len": l, "max_trust_len": l, "schemes": 4, "times": 3}
+			return map[string]int{"pool": len(c19.names), "max_chain_len": l, "max_trust_len": l, "schemes": 4, "times": 3}
 		},
 		Guards: func(s *mc.Stats, t mc.Tier) []string {
 			var w []string
